@@ -1,0 +1,254 @@
+//go:build verif
+
+// Verification hooks: exported wrappers around unexported machinery, in the
+// style of an export_test.go. This file is only compiled with -tags verif and
+// only adds declarations; nothing in the default build refers to it.
+
+package rapid
+
+import (
+	"fmt"
+	"sync"
+	"time"
+)
+
+// VerifSource is an externally supplied bitstream: an explorer answers every
+// drawBits request and observes the group structure.
+type VerifSource interface {
+	DrawBits(n int) uint64
+	BeginGroup(label string, standalone bool)
+	EndGroup(discard bool)
+}
+
+type verifStream struct {
+	src VerifSource
+	recordedBits
+}
+
+func (s *verifStream) drawBits(n int) uint64 {
+	assert(n >= 0)
+	u := s.src.DrawBits(n) & bitmask64(uint(n))
+	s.record(u)
+	return u
+}
+
+func (s *verifStream) beginGroup(label string, standalone bool) int {
+	s.src.BeginGroup(label, standalone)
+	return s.recordedBits.beginGroup(label, standalone)
+}
+
+func (s *verifStream) endGroup(i int, discard bool) {
+	s.recordedBits.endGroup(i, discard)
+	s.src.EndGroup(discard)
+}
+
+// VerifOverrun ends the current test case the way an exhausted buffer does.
+func VerifOverrun() {
+	panic(invalidData("overrun"))
+}
+
+type VerifGroup struct {
+	Begin      int
+	End        int
+	Label      string
+	Standalone bool
+	Discard    bool
+}
+
+const (
+	VerifOK      = 0
+	VerifInvalid = 1
+	VerifFail    = 2
+	VerifPanic   = 3
+)
+
+// VerifResult describes one execution of a property on one bitstream.
+type VerifResult struct {
+	Kind         int
+	Msg          string
+	Traceback    string
+	Data         []uint64
+	Groups       []VerifGroup
+	Pruned       []uint64
+	PrunedGroups []VerifGroup
+	PruneErr     string
+}
+
+func verifGroups(gs []groupInfo) []VerifGroup {
+	out := make([]VerifGroup, len(gs))
+	for i, g := range gs {
+		out[i] = VerifGroup{g.begin, g.end, g.label, g.standalone, g.discard}
+	}
+	return out
+}
+
+func verifKind(err *testError) int {
+	switch {
+	case err == nil:
+		return VerifOK
+	case err.isInvalidData():
+		return VerifInvalid
+	case err.isStopTest():
+		return VerifFail
+	default:
+		return VerifPanic
+	}
+}
+
+func verifResult(rec *recordedBits, err *testError) (res VerifResult) {
+	res.Kind = verifKind(err)
+	if err != nil {
+		res.Msg = err.Error()
+		res.Traceback = err.traceback
+	}
+	res.Data = append([]uint64(nil), rec.data...)
+	res.Groups = verifGroups(rec.groups)
+
+	cp := recordedBits{
+		data:    append([]uint64(nil), rec.data...),
+		groups:  append([]groupInfo(nil), rec.groups...),
+		persist: true,
+	}
+	func() {
+		defer func() {
+			if r := recover(); r != nil {
+				res.PruneErr = fmt.Sprint(r)
+			}
+		}()
+		cp.prune()
+	}()
+	res.Pruned = cp.data
+	res.PrunedGroups = verifGroups(cp.groups)
+	return res
+}
+
+// VerifRunSource runs prop once on a bitstream answered by src (recording on).
+func VerifRunSource(tb TB, src VerifSource, log bool, prop func(*T)) VerifResult {
+	s := &verifStream{src: src}
+	s.persist = true
+	err := checkOnce(newT(tb, s, log, nil), prop)
+	return verifResult(&s.recordedBits, err)
+}
+
+// VerifRunBuf runs prop once on the given words through the real buffer stream.
+func VerifRunBuf(tb TB, buf []uint64, log bool, prop func(*T)) VerifResult {
+	s := newBufBitStream(append([]uint64(nil), buf...), true)
+	err := checkOnce(newT(tb, s, log, nil), prop)
+	return verifResult(&s.recordedBits, err)
+}
+
+// VerifRunSeed runs prop once on the PRNG stream of the given seed.
+func VerifRunSeed(tb TB, seed uint64, log bool, prop func(*T)) VerifResult {
+	s := newRandomBitStream(seed, true)
+	err := checkOnce(newT(tb, s, log, nil), prop)
+	return verifResult(&s.recordedBits, err)
+}
+
+// VerifShrink runs prop on buf and, if it fails, minimizes it exactly the way
+// doCheck does (prune, then shrink until the deadline).
+func VerifShrink(tb TB, buf []uint64, shrinkTime time.Duration, prop func(*T)) (VerifResult, []uint64, VerifResult) {
+	s := newBufBitStream(append([]uint64(nil), buf...), true)
+	err := checkOnce(newT(tb, s, false, nil), prop)
+	first := verifResult(&s.recordedBits, err)
+	if err == nil || err.isInvalidData() {
+		return first, nil, VerifResult{}
+	}
+	out, err2 := shrink(tb, verifNow().Add(shrinkTime), s.recordedBits, err, prop)
+	res := VerifResult{Kind: verifKind(err2)}
+	if err2 != nil {
+		res.Msg = err2.Error()
+		res.Traceback = err2.traceback
+	}
+	return first, out, res
+}
+
+// VerifCheckFuzz is the body of the function returned by MakeFuzz with a TB
+// in place of *testing.T.
+func VerifCheckFuzz(tb TB, prop func(*T), input []byte) {
+	checkFuzz(tb, prop, input)
+}
+
+func VerifSaveFailFile(filename string, version string, output []byte, seed uint64, buf []uint64) error {
+	return saveFailFile(filename, version, output, seed, buf)
+}
+
+func VerifLoadFailFile(filename string) (string, uint64, []uint64, error) {
+	return loadFailFile(filename)
+}
+
+func VerifFailFileName(testName string) (string, string) { return failFileName(testName) }
+func VerifFailFilePattern(testName string) string         { return failFilePattern(testName) }
+func VerifVersion() string                                { return rapidVersion }
+func VerifSafeFilename(s string) string                   { return kindaSafeFilename(s) }
+func VerifBaseSeed() uint64                               { return baseSeed() }
+
+// VerifResetCaches forgets everything the process-wide regexp/rune-table
+// caches have learned, so that first use can be observed again.
+func VerifResetCaches() {
+	expandedTables = sync.Map{}
+	compiledRegexps = sync.Map{}
+	regexpNames = sync.Map{}
+	charClassGens = sync.Map{}
+}
+
+// VerifMinimize exposes the single-word minimizer.
+func VerifMinimize(u uint64, cond func(uint64) bool) uint64 {
+	return minimize(u, func(v uint64, _ string) bool { return cond(v) })
+}
+
+// --- seams used only by instrumented copies of the sources (go build -overlay) ---
+
+var (
+	verifClock   func() time.Time
+	verifWordEnv func(seed uint64, idx int, n int, real uint64) uint64
+	verifBufObs  func(buf []uint64, persist bool)
+	verifSeeds   = map[*randomBitStream]*verifSeedState{}
+)
+
+type verifSeedState struct {
+	seed uint64
+	idx  int
+}
+
+func VerifSetClock(f func() time.Time) { verifClock = f }
+func VerifSetWordEnv(f func(seed uint64, idx int, n int, real uint64) uint64) {
+	verifWordEnv = f
+	verifSeeds = map[*randomBitStream]*verifSeedState{}
+}
+func VerifSetBufObserver(f func(buf []uint64, persist bool)) { verifBufObs = f }
+
+func verifNow() time.Time {
+	if verifClock != nil {
+		return verifClock()
+	}
+	return time.Now()
+}
+
+func verifUntil(t time.Time) time.Duration { return t.Sub(verifNow()) }
+func verifSince(t time.Time) time.Duration { return verifNow().Sub(t) }
+
+func verifSeeded(s *randomBitStream, seed uint64) {
+	if verifWordEnv == nil {
+		return
+	}
+	verifSeeds[s] = &verifSeedState{seed: seed}
+}
+
+func verifWord(s *randomBitStream, real uint64, n int) uint64 {
+	if verifWordEnv == nil {
+		return real
+	}
+	st := verifSeeds[s]
+	if st == nil {
+		return real
+	}
+	u := verifWordEnv(st.seed, st.idx, n, real)
+	st.idx++
+	return u
+}
+
+func verifOnBuf(buf []uint64, persist bool) {
+	if verifBufObs != nil {
+		verifBufObs(buf, persist)
+	}
+}
